@@ -287,7 +287,10 @@ def tokenizer_table(prog, eng):
 
 
 def check_spelling(prog, rep, eng):
-    tk, ttable = tokenizer_table(prog, eng)
+    import tokrules as TR
+    m = TR.model(prog)
+    if not m.ok:
+        rep.unresolved("C06-R4", "tokenizer/model", "", "the tokenizer's main loop could not be modelled")
     for enum_name, kind in (("UnaryOp", "Unary"), ("BinaryOp", "Binary"), ("HybridOp", "Hybrid")):
         fn, dtable, variants = display_table(prog, eng, enum_name)
         if fn is None:
@@ -300,16 +303,17 @@ def check_spelling(prog, rep, eng):
                 rep.unresolved("C06-R4", f"{enum_name}::{v}", f"{fn.file}:{fn.line}", "printed text of the variant could not be recovered")
                 continue
             text = "".join(pieces)
-            back = ttable.get(text, [])
-            good = bool(back) and all(b[0] == kind and b[1] == v for b in back)
-            if not back:
-                rep.unresolved("C06-R4", f"{enum_name}::{v}", f"{fn.file}:{fn.line}",
-                               f"Display prints {enum_name}::{v} as `{text}`; no tokenizer arm producing an operator for that spelling could be recovered "
-                               "(arm table is recovered from literal character tests on the consumed characters)")
+            if not m.ok:
                 continue
+            good, why = TR.reads_back(m, text, kind, v, follows=(("{", " ") if kind == "Hybrid" else TR.BREAK_CHARS))
             rep.check(good, "C06-R4", f"{enum_name}::{v}", f"{fn.file}:{fn.line}", f"`{text}` is tokenised back to {kind}({v})",
-                      f"Display prints {enum_name}::{v} as `{text}`, which the tokenizer reads as {[(b[0], b[1]) for b in back] or 'no operator'}")
-    rep.floor("C06-R4", 20)
+                      f"Display prints {enum_name}::{v} as `{text}`, but {why}")
+    # a printed proposition name is read back as one proposition: names that begin like an operator included (C05-R4 instances)
+    sub = type(rep)("C06n")
+    TR.check_lookahead(prog, sub, "N")
+    for i in sub.instances:
+        (rep.ok if i.verdict == "ok" else rep.violation if i.verdict == "violation" else rep.unresolved)("C06-R4", "names/" + i.key.split(":", 1)[1], i.where, i.detail)
+    rep.floor("C06-R4", 25)
     # atoms
     fn, _, _ = display_table(prog, eng, "Atomic")
     if fn is None:
